@@ -127,9 +127,13 @@ func DBFileOf(path string) string { return path + ".v4" }
 
 // Open runs the real node.NewPegnetd on path (creating the database if needed),
 // then swaps the sql.DB for a wrapped one with the same DSN.
+// DisableHardForkCheck makes Open start the node with the operator's override of the hard-fork check (--no-hf).
+var DisableHardForkCheck bool
+
 func Open(path string, fk *fake.Node, hooks *sqlw.Hooks, wal bool) (*Daemon, error) {
 	Setup()
 	conf := viper.New()
+	conf.Set(config.DisableHardForkCheck, DisableHardForkCheck)
 	conf.Set(config.SqliteDBPath, path)
 	conf.Set(config.DBlockSyncRetryPeriod, time.Duration(0))
 	conf.Set(config.Network, "none")
